@@ -9,6 +9,7 @@ verus! {
 global size_of usize == 8;
 //@include lib/ext_ioerror.rs
 //@include lib/oneway_world.rs
+//@include lib/verr.rs
 //@include lib/oneway_fns.rs
 }
 fn main() {}
